@@ -15,7 +15,7 @@ struct C13 : Prop {
 		return "plan = [warm-up session with a valid generated configuration] + 1-3 starts with a configuration triple in which one or two files are mutated "
 		       "(delete/duplicate/swap lines, duplicate items, rename keys, bad value formats, re-indentation, garbage, copied ids and addresses, scalar/sequence swaps, "
 		       "truncation, document markers, raw noise) or hit by a file fault (missing file, truncation at byte k = torn write, EIO after k bytes) + a final start with the "
-		       "valid configuration. The start runs the real threads against the simulated interface on simulated time and, on error, the whole bidib_stop path. Oracle: "
+		       "valid configuration; boards log in and report while a start is going on, single feature confirmations are late and overtaken. The start runs the real threads against the simulated interface on simulated time and, on error, the whole bidib_stop path. Oracle: "
 		       "returns 0/1 (no deadlock, self-deadlock, unbounded wait, sanitizer report); on 1 no lock held, all created threads joined, no virtual FILE left open, "
 		       "library-attributed live heap back to the level after the warm-up session; the final valid start returns 0. non-trivial = >=1 mutated start returned 1; "
 		       "distinct = (shape incl. config hash, trace hash).";
